@@ -102,8 +102,56 @@ func runC11(ctx *core.Ctx) {
 	ctx.Rule("R4", "no shared in-process state: no function reachable from Put/Get/GetFile/GetBytes/OutputFile stores to a field of Cache or to a package-level variable unless a package mutex is definitely held", 1)
 	ctx.Rule("R2", "data file committed by its last byte (C12.P1, re-checked here in summary form): the only direct write to the data file is dominated by the digest comparison", 1)
 	reuseAfterRehash(ctx, "R3")
+	c12PutOrder(ctx, "R6")
+	ctx.Rule("R5", "a live data file is never cut under another writer: every value of the data file's open flags that contains O_TRUNC arrives on an edge where the existing file was seen (Stat error nil) and is strictly larger than the expected size; a file of equal or smaller size may be a concurrent writer's copy in progress, and truncating it makes that writer's Put return with a hole in the stored bytes", 1)
 
 	indexRewriteRules(ctx)
+	// R5
+	if cpf := ctx.Need("R5", "cache", "(*Cache).copyFile"); cpf != nil {
+		g := graph(p, cpf)
+		size := cpf.Params[3]
+		trunc := osFlag(p, "O_TRUNC")
+		isSizeCall := func(v ssa.Value) bool {
+			c, ok := v.(*ssa.Call)
+			return ok && c.Call.IsInvoke() && c.Call.Method.Name() == "Size"
+		}
+		for k, open := range g.Calls("os.OpenFile") {
+			key := "cache.copyFile#trunc" + itoa(k+1)
+			arg := open.Call.Args[1]
+			_, leaves := phiWeb(arg)
+			if _, isPhi := arg.(*ssa.Phi); !isPhi {
+				leaves = []leaf{{Val: arg}}
+			}
+			bad := ""
+			for _, l := range leaves {
+				vals, ok := ssax.PossibleInts(l.Val)
+				if !ok {
+					bad = "open flags are not constant"
+					break
+				}
+				has := false
+				for _, v := range vals {
+					if v&trunc != 0 {
+						has = true
+					}
+				}
+				if !has {
+					continue
+				}
+				var facts []ssax.Fact
+				if l.Pred != nil {
+					facts = factsOnEdge(g, l.Pred, l.Phi.Block())
+				} else {
+					facts = g.FactsAtInstr(open)
+				}
+				larger := cmpFact(facts, token.GTR, isSizeCall, isVal(size))
+				if !larger {
+					bad = "O_TRUNC chosen without establishing existing size > expected size"
+				}
+			}
+			ctx.Check(bad == "", "R5", key, open.Pos(), "O_TRUNC on the data file only when the existing file is strictly larger than the expected size %s", bad)
+		}
+	}
 	// R2 summary
 	if cpf := ctx.Need("R2", "cache", "(*Cache).copyFile"); cpf != nil {
 		g := graph(p, cpf)
